@@ -134,18 +134,19 @@ def parseCarried (route send : String) : Option Carried := do
   if route = "D" then pure (conv (clientCarried .dflt sendArg))
   else if route = "F" then pure (conv (clientCarried .falsy sendArg))
   else if route = "N" then pure (.ok none)
-  else match splitStr route ':' with
-    | ["T", h] => do pure (conv (clientCarried (.text (← bytesOfHex h)) sendArg))
-    | ["L", h] => do
-      match jsonLoads (← bytesOfHex h) with
+  else match route.toList with
+    | 'T' :: ':' :: h => do pure (conv (clientCarried (.text (← bytesOfHex (String.ofList h))) sendArg))
+    | 'L' :: ':' :: h => do
+      match jsonLoads (← bytesOfHex (String.ofList h)) with
       | some (.list xs) => pure (conv (clientCarried (.list xs) sendArg))
       | _ => none
-    | ["R", segs] => do pure (.ok (some (← parseSegs segs)))
+    | 'R' :: ':' :: segs => do pure (.ok (some (← parseSegs (String.ofList segs))))
     | _ => none
 
 def parseOp (s : String) : Option Op :=
   match splitStr s '.' with
-  | ["r", t, i, n] => do pure (.read (← t.toNat?) (← i.toNat?) (← n.toNat?))
+  | ["r", t, i, n] => do pure (.read (← t.toNat?) (← i.toNat?) (← n.toNat?) false)
+  | ["rf", t, i, n] => do pure (.read (← t.toNat?) (← i.toNat?) (← n.toNat?) true)
   | ["w", t, i, vs] => do pure (.write (← t.toNat?) (← i.toNat?) (← natList vs))
   | ["g", a] => do pure (.gas (← a.toNat?))
   | ["s", a, vs] => do pure (.sas (← a.toNat?) (← natList vs))
